@@ -2933,7 +2933,7 @@ struct const_subarray<T, 1, ElementPtr, Layout>  // NOLINT(fuchsia-multiple-inhe
 		#pragma clang diagnostic ignored "-Wunsafe-buffer-usage"  // TODO(correaa) use checked span
 		#endif
 
-		return const_subarray{this->layout().slice(first, last), this->base_ + (first*this->layout().stride() /*- this->layout().offset()*/)};  // TODO(correaa) fix need for offset
+		return const_subarray{this->layout().slice(first, last), this->base_ + (first*this->layout().stride() - this->layout().offset())};
 
 		#if defined(__clang__)
 		#pragma clang diagnostic pop
